@@ -749,6 +749,7 @@ func (r *Raft) restoreFromCommittedLogs() error {
 		commitIndex = lastIndex
 	}
 
+	verifHook("commit.restore", r, r.getCommitIndex(), commitIndex, lastIndex, 0)
 	r.setCommitIndex(commitIndex)
 	r.processLogs(commitIndex, nil)
 	return nil
